@@ -176,10 +176,34 @@ class GenWalker:
 
     def truth(self, val: object, key: str) -> bool:
         if isinstance(val, Opaque):
+            self._refuse_closed(key)
             return self.decide(key, val)
         if isinstance(val, (Obj, Gen)):
             return True
         return bool(val)
+
+    def _refuse_closed(self, key: str) -> None:
+        """Exploring both outcomes of a condition is sound only where the condition is genuinely open at
+        generation time (the class of a child, another rule of the table).  A condition over nothing but the
+        node's own bound attributes and module names has ONE value for this binding; if the model cannot
+        compute it, following both would invent a variant the generator never emits - and report it."""
+        try:
+            tree = ast.parse(key, mode="eval")
+        except SyntaxError:
+            return
+        bound = {k for k in self.params if not isinstance(self.params[k], (Child, list))} | {"tag"}
+        for n in ast.walk(tree):
+            if isinstance(n, ast.Name) and n.id != "self" and n.id not in self.modconst and n.id not in ("True", "False", "None", "bool", "len", "not"):
+                if n.id in self.repo.mod(self._cur_rel).functions() or n.id[:1].isupper():
+                    continue  # a module-level name (class, constant, function)
+                return  # a local / a parameter such as rules, gen, branch: open
+            if isinstance(n, ast.Call) and isinstance(n.func, ast.Name) and n.func.id == "isinstance":
+                return
+            if isinstance(n, ast.Attribute) and isinstance(n.value, ast.Name) and n.value.id == "self" and n.attr not in bound:
+                return  # self.expression, self.expressions, ...: a child
+        if "self." not in key:
+            return
+        raise AnalysisError(f"{self.construct}: the generator branches on `{key}`, which this binding determines but the model cannot evaluate (following both outcomes would invent a variant that is never emitted)")
 
     # ---------------------------------------------------------------- expressions
     def ev(self, node: ast.AST, env: dict) -> object:  # noqa: PLR0911, PLR0912
@@ -434,6 +458,18 @@ class GenWalker:
                 return None
             if attr == "generate":
                 return self.generate_call(base, args, node)
+            if isinstance(base, Obj) and base.cls and base is env.get("self") and attr not in ("build_optimized_pattern", "tag_str", "__str__", "_pattern", "children", "with_children"):
+                # a helper method of the node itself: one that is handed the Builder emits code and must be followed;
+                # a pure one (returning what the template branches on) is followed when the model can
+                r = self.repo.resolve_method(base.cls, attr)
+                if r is not None:
+                    has_gen = any(isinstance(x, Gen) for x in args) or any(isinstance(v, Gen) for v in kwargs.values())
+                    if has_gen:
+                        return self.inline(r[0], r[1], r[2], [base, *args], kwargs)
+                    try:
+                        return self.inline(r[0], r[1], r[2], [base, *args], kwargs)
+                    except AnalysisError:
+                        pass
             if isinstance(base, (Obj, _Super)):
                 return Opaque(ast.unparse(node), "str" if attr in ("build_optimized_pattern", "tag_str") else None)
         if isinstance(f, str) and f in self.repo.mod(self._cur_rel).functions() and f not in ("version",):
